@@ -705,12 +705,13 @@ type c07Child struct {
 	Repeat string   `json:"repeat,omitempty"` // payload = Repeat x N + Tail
 	N      int      `json:"n,omitempty"`
 	Tail   string   `json:"tail,omitempty"`
+	Head   string   `json:"head,omitempty"`  // sent before Repeat x N
 	Burst  bool     `json:"burst,omitempty"` // concurrent same-hash HSET/HDEL/HGETALL burst
 }
 
 func (c c07Child) payload() []byte {
 	if c.N > 0 {
-		return append(bytes.Repeat([]byte(c.Repeat), c.N), c.Tail...)
+		return append(append([]byte(c.Head), bytes.Repeat([]byte(c.Repeat), c.N)...), c.Tail...)
 	}
 	return c.Raw
 }
@@ -843,6 +844,12 @@ func c07ChildList() []c07Child {
 	out = append(out, c07Child{Name: "nesting-8M", Repeat: "*1\r\n", N: 8000000, Tail: "$4\r\nPING\r\n"})
 	out = append(out, c07Child{Name: "nesting-1M-unterminated", Repeat: "*1\r\n", N: 1000000})
 	out = append(out, c07Child{Name: "concurrent-same-hash-burst", Burst: true})
+	// patterns that are valid but enormous once translated (the matcher may refuse them, the process may not die)
+	out = append(out, c07Child{Name: "keys-pattern-60000-wildcards", Head: "*2\r\n$4\r\nKEYS\r\n$60000\r\n", Repeat: "*", N: 60000, Tail: "\r\n"})
+	out = append(out, c07Child{Name: "keys-pattern-1700000-wildcards", Head: "*2\r\n$4\r\nKEYS\r\n$1700000\r\n", Repeat: "*", N: 1700000, Tail: "\r\n"})
+	if os.Getenv("VERIF_TIER") == "thorough" {
+		out = append(out, c07Child{Name: "scan-match-1700000-wildcards", Head: "*4\r\n$4\r\nSCAN\r\n$1\r\n0\r\n$5\r\nMATCH\r\n$1700000\r\n", Repeat: "?", N: 1700000, Tail: "\r\n"})
+	}
 	return out
 }
 
